@@ -67,6 +67,10 @@ fn main() {
             println!("{}", gen::ast::print_program(&g.prog, gen::ast::Layout::plain()));
             eprintln!("tags: {:?}", g.prog.tags);
         }
+        "lower-bytes" => {
+            let path = args.get(2).cloned().unwrap_or_else(|| usage());
+            props::c18::lower_bytes_cli(&path);
+        }
         "compile-batch" => {
             // one line per template: "<network> <tir hex>"; prints the payload hex (or ERR ...) per line
             use tx3_tir::compile::Compiler as _;
